@@ -296,6 +296,7 @@ func (p *c07) Run(c *verifsim.Chooser, st *Stats, render bool) *Outcome {
 	var globals, scoped []string
 	var runs []*c07Run
 	opt := true
+	usePool := false
 	if mode == 1 {
 		si := c.Intn(len(c07Corpus))
 		oi := c.Intn(len(c07Objs))
@@ -342,6 +343,13 @@ func (p *c07) Run(c *verifsim.Chooser, st *Stats, render bool) *Outcome {
 	} else {
 		sc := GenScript(c, GenCfg{Funcs: true, Faults: true, Hashes: true})
 		text, globals, scoped = sc.Text, sc.Globals, sc.Scoped
+		if c.Intn(8) == 1 {
+			// a script from some other property's corpus
+			pool := scriptPool()
+			text = pool[c.Intn(len(pool))]
+			globals, scoped = analyseNames(text)
+			usePool = true
+		}
 		opt = c.Intn(2) == 0
 		currentDesc.Store("random history")
 	}
@@ -387,6 +395,9 @@ func (p *c07) Run(c *verifsim.Chooser, st *Stats, render bool) *Outcome {
 		} else {
 			r = &c07Run{}
 			r.Obj, r.ObjDesc = genObject(c)
+			if usePool || c.Intn(6) == 1 {
+				r.Obj, r.ObjDesc = objectPool(c)
+			}
 			if reusePtr {
 				// the host decodes every record into the same variable and
 				// passes its address: same pointer, new contents
